@@ -290,7 +290,10 @@ void LVCalc(matrix *X,
         t_old->data[i] = t_->data[i];
     }
     else{
-      if(calcConvergence(t_, t_old) < PLSCONVERGENCE){
+      double conv = calcConvergence(t_, t_old);
+      if(conv < PLSCONVERGENCE || _isnan_(conv)){
+        /* NaN: the latent variable is not defined (null score vector, e.g.
+         * constant response or exhausted X/Y residuals) and can never converge */
         break;
       }
       else{
